@@ -213,7 +213,7 @@ func firstLine(s string) string {
 func anchoredIn(prop, stack string) string {
 	for _, ln := range strings.Split(stack, "\n") {
 		ln = strings.TrimSpace(ln)
-		if !strings.HasPrefix(ln, "/") {
+		if !strings.Contains(ln, ".go:") {
 			continue
 		}
 		for _, a := range Anchors[prop] {
